@@ -125,6 +125,22 @@ func Run(h History, or Oracles) (fails []Fail, st RunStats, err error) {
 				counts = append(counts, e.LocalL0Max())
 			}
 			st.Outcomes = append(st.Outcomes, fmt.Sprintf("idle%v", counts))
+			if or.WalBound && len(counts) == op.A && op.A > 0 && e.Reader == nil && e.bgDone == nil {
+				// the same bound holds after idle syncs: a threshold crossed while a reader pinned the WAL must be
+				// honoured once the reader is gone, even if the application has gone idle
+				w := ScanWAL(e.DBPath + "-wal")
+				lowest := h.Cfg.MinCheckpointPageN
+				tr := h.Cfg.TruncatePageN
+				if tr == 0 {
+					tr = litestream.DefaultTruncatePageN
+				}
+				if tr > 0 && tr < lowest {
+					lowest = tr
+				}
+				if w.LiveFrames >= lowest+1 && lowest >= 1 {
+					add(i, "wal-not-bounded-after-sync", fmt.Sprintf("after %d successful idle syncs with no pinned application transaction the live WAL holds %d frames, threshold %d (+1 bookkeeping)", op.A, w.LiveFrames, lowest))
+				}
+			}
 			if or.IdleQuiet && len(counts) >= 4 {
 				// at most a small constant number of further files, then none
 				n := len(counts)
@@ -718,6 +734,19 @@ func GenC13(r *hx.Rand, thorough bool) History {
 		default:
 			h.Ops = append(h.Ops, Op{K: "sleep", A: 2})
 		}
+	}
+	if r.Chance(25) {
+		// a reader pins the WAL while the application writes past the threshold; litestream syncs (its checkpoint
+		// cannot restart the WAL); the reader goes away; the application goes idle
+		h.Ops = append(h.Ops, Op{K: "sync"}, Op{K: "rbegin"})
+		for i, k := 0, 2+r.Intn(4); i < k; i++ {
+			h.Ops = append(h.Ops, Op{K: "ins", A: 2 + r.Intn(6), B: ps + r.Intn(2*ps)})
+		}
+		h.Ops = append(h.Ops, Op{K: "sync"})
+		if r.Chance(40) {
+			h.Ops = append(h.Ops, Op{K: "sync"})
+		}
+		h.Ops = append(h.Ops, Op{K: "rend"})
 	}
 	h.Ops = append(h.Ops, Op{K: "sync"}, Op{K: "idle", A: 6 + r.Intn(5)})
 	return h
